@@ -1060,8 +1060,10 @@ evhttp_handle_chunked_read(struct evhttp_request *req, struct evbuffer *buf)
 				return (DATA_CORRUPTED);
 			}
 			ntoread = evutil_strtoll(p, &endp, 16);
-			error = (*p == '\0' ||
-			    (*endp != '\0' && *endp != ' ') ||
+			/* the size may be followed by chunk extensions
+			 * (";name=value"), which a recipient must ignore */
+			error = (*p == '\0' || endp == p ||
+			    (*endp != '\0' && *endp != ' ' && *endp != ';') ||
 			    ntoread < 0);
 			mm_free(p);
 			if (error) {
